@@ -62,7 +62,10 @@ def run(ctx):
            'write_en re-evaluates the space test (%s) for every byte and write_commit does not exclude a packet that had '
            'bytes refused: a packet that starts with just enough room is stored partially and still committed' % space)
     # (c)
-    wdat = {a.lhs.canon(): a.rhs.canon() for a in ir.drivers('fifo.write_data', exact=True)}
+    wdat = {}
+    for key, (lo, hi) in (('fifo.write_data[0:8]', (0, 8)), ('fifo.write_data[8:9]', (8, 9)), ('fifo.write_data[9:10]', (9, 10))):
+        bd = q.bits_drivers(ir, 'fifo.write_data', lo, hi)
+        wdat[key] = bd[0][1].canon() if len(bd) == 1 and bd[0][1] is not None and not bd[0][0].guard else [q.fmt(a) for a, _ in bd]
     want = {'fifo.write_data[0:8]': 'boundary_detector.processed_stream.payload', 'fifo.write_data[8:9]': 'boundary_detector.last',
             'fifo.write_data[9:10]': 'boundary_detector.first'}
     ctx.ob('C16.flags-with-bytes', 'IsoOut.write_data', wdat == want, None, 'payload/last/first packed into the FIFO word: %s' % wdat)
